@@ -75,5 +75,10 @@ def read_metadata(f, records_per_chunk=1024):
         for records, offset in zip(raw_metadata, chunk_offsets)
     )
     metadata = list(concat(adjusted))
+    if len(metadata) != n_records:
+        # e.g. a partially transferred file that ends on a record boundary
+        raise ValueError(
+            f"truncated image file: expected {n_records} data records but found {len(metadata)}"
+        )
 
     return to_dict(header), to_dict(metadata)
